@@ -25,6 +25,10 @@ type Case struct {
 	Final int64  `json:"final"` // -1 unknown
 	// set in artefacts to re-run a single resumption
 	ResumeAt *int `json:"resume_at,omitempty"`
+	// environment deviation: the block source shuts down cleanly right after block CleanEndAt, in tier1's stream or in the
+	// tier2 job that processes it. The request must then end with an error, never succeed with blocks missing.
+	CleanEndAt    uint64 `json:"clean_end_at,omitempty"`
+	CleanEndTier2 bool   `json:"clean_end_tier2,omitempty"`
 }
 
 func (c Case) String() string {
@@ -76,6 +80,9 @@ func Eval(c Case) (*core.Fail, bool) {
 		if final > head {
 			chain.Head = final
 		}
+	}
+	if c.CleanEndAt != 0 {
+		return evalCleanEnd(c, p, chain, final, dir)
 	}
 	cfg := sysrun.Config{Modules: p.Modules, Output: p.Output, Prod: c.Prod, Seg: c.Seg, Start: int64(c.Start), Stop: c.Stop, Final: final, Dir: dir, Source: chain, Timeout: 10 * time.Second}
 	r := sysrun.Run(cfg)
@@ -188,6 +195,44 @@ func Eval(c Case) (*core.Fail, bool) {
 }
 
 // filterEmptyBelow drops empty-payload messages below the hand-off in production mode (back-filling may omit them).
+// evalCleanEnd: the block source ends cleanly before the stop block. A request that returns without error must have
+// delivered everything the fault-free request delivers; otherwise it must return an error (no silent truncation), and
+// what it delivered before is a prefix of the fault-free stream.
+func evalCleanEnd(c Case, p *progs.Prog, chain sysrun.LinearChain, final uint64, dir string) (*core.Fail, bool) {
+	refDir := sysrun.Scratch("c04ref")
+	defer removeAll(refDir)
+	ref := sysrun.Run(sysrun.Config{Modules: p.Modules, Output: p.Output, Prod: c.Prod, Seg: c.Seg, Start: int64(c.Start), Stop: c.Stop, Final: final, Dir: refDir, Source: chain, Timeout: 10 * time.Second})
+	if ref.Err != nil {
+		return nil, false // judged by the base case
+	}
+	chain.CleanEndAt, chain.CleanEndTier2 = c.CleanEndAt, c.CleanEndTier2
+	r := sysrun.Run(sysrun.Config{Modules: p.Modules, Output: p.Output, Prod: c.Prod, Seg: c.Seg, Start: int64(c.Start), Stop: c.Stop, Final: final, Dir: dir, Source: chain, Timeout: 10 * time.Second})
+	where := "tier1 stream"
+	if c.CleanEndTier2 {
+		where = "segment job"
+	}
+	desc := fmt.Sprintf("%s, block source of the %s shuts down cleanly after block %d", c.String(), where, c.CleanEndAt)
+	if r.Err != nil && (strings.Contains(r.Err.Error(), "context deadline exceeded") || strings.Contains(r.Err.Error(), "HANG")) {
+		return core.Failf("hang:block-source-ended-early", "%s: %v", desc, r.Err), true
+	}
+	got, want := rows(r.Data), rows(ref.Data)
+	if r.Err == nil {
+		if got != want {
+			return core.Failf("silently-truncated-stream", "%s: the request succeeded with\n    %s\n  the fault-free request delivers\n    %s", desc, got, want), true
+		}
+		return nil, false // the early end was never reached (the source is not read that far)
+	}
+	if len(r.Data) > len(ref.Data) {
+		return core.Failf("delivered-before-the-error-is-not-a-prefix", "%s: delivered %s then %v; fault-free %s", desc, got, r.Err, want), true
+	}
+	for i, d := range r.Data {
+		if d.Num != ref.Data[i].Num || d.Payload != ref.Data[i].Payload {
+			return core.Failf("delivered-before-the-error-is-not-a-prefix", "%s: delivered %s then %v; fault-free %s", desc, got, r.Err, want), true
+		}
+	}
+	return nil, true
+}
+
 func filterEmptyBelow(ds []sysrun.DataMsg, handoff uint64, prod bool) []sysrun.DataMsg {
 	if !prod {
 		return ds
@@ -261,6 +306,27 @@ func Run(ctx *core.Ctx) int {
 			}
 		}
 	}, Eval)
+	// clean early end of the block source at every block of a few requests, in tier1's stream and in the segment jobs
+	ce := core.ParallelEnum(ctx, func(emit func(Case) bool) {
+		for _, b := range []Case{
+			{Prog: "storemap", Prod: true, Seg: 3, SInit: 1, MInit: 2, Start: 4, Stop: 11, Final: 8},
+			{Prog: "storemap", Prod: false, Seg: 3, SInit: 1, MInit: 2, Start: 7, Stop: 12, Final: 6},
+			{Prog: "maponly", Prod: true, Seg: 2, SInit: 1, MInit: 1, Start: 3, Stop: 8, Final: 6},
+			{Prog: "sparse", Prod: false, Seg: 2, SInit: 1, MInit: 1, Start: 3, Stop: 8, Final: -1},
+		} {
+			for n := uint64(1); n < b.Stop; n++ {
+				for _, t2 := range []bool{false, true} {
+					v := b
+					v.CleanEndAt, v.CleanEndTier2 = n, t2
+					if !emit(v) {
+						return
+					}
+				}
+			}
+		}
+	}, Eval)
+	st.Evaluations += ce.Evaluations
+	st.NonTrivial += ce.NonTrivial
 	ctx.Sample(Case{Prog: "storemap", Prod: true, Seg: 5, SInit: 4, MInit: 5, Start: 6, Stop: 17, Final: 11})
 	ctx.Sample(Case{Prog: "sparse", Prod: false, Seg: 2, MInit: 1, Start: 3, Stop: 8, Final: -1})
 	ctx.Cov["evaluations"] = st.Evaluations
